@@ -249,7 +249,7 @@ class World:
         except Exception as e:
             exc = type(e).__name__
             mexc = ''
-        return exc or mexc, [ids.get(id(e), '?') for e in got]
+        return exc, mexc, [ids.get(id(e), '?') for e in got]
 
     def conc_action(self, a: dict, tab: dict) -> dict:
         """The action with concrete (tokenised) strings, as TLC must see it."""
@@ -294,8 +294,8 @@ def step(w: World, a: dict, tab: dict, src: str, out: hlib.RecWriter, hist=None,
     sig = sig_for(w, pre, a, src)
     ca = w.conc_action(a, tab)
     if a['op'] == 'iter':
-        exc, got = w.do_iter(a, tab)
-        rec = {'k': 'iter', 'pre': pre, 'a': ca, 'exc': exc, 'val': '', 'got': got}
+        exc, mexc, got = w.do_iter(a, tab)      # exc: raised by the iteration itself; mexc: by the call in the middle
+        rec = {'k': 'iter', 'pre': pre, 'a': ca, 'exc': exc, 'mexc': mexc, 'val': '', 'got': got}
     else:
         exc, val = w.do(a, tab)
         rec = {'k': 'step', 'pre': pre, 'a': ca, 'exc': exc, 'val': val}
